@@ -137,6 +137,7 @@ theorem block_bdiag_tl {n m n' m' : Nat} (A : Mat α n n') (B : Mat α m m')
   ext i j
   simp only [block, Mat.of_get]
   rw [bdiag_tl A B _ _ (by simp) (by simp)]
+  congr 1 <;> (ext; simp)
 
 /-- a block in the first block-row and right of the first block-column is zero -/
 theorem block_bdiag_tr {n m n' m' : Nat} (A : Mat α n n') (B : Mat α m m') (c0 nc : Nat)
